@@ -124,3 +124,52 @@ def _resolves_to(repo, f, call, keys):
         return False
     t = repo.resolve_name(f.module, d)
     return getattr(t, 'key', None) in keys
+
+
+def tilt_slot_agreement(chk, repo, clause):
+    """C04-g / C10-e: the entries per segment that Plane.fit_tilt can accumulate
+    in Plane.tilt are all consumed by Plane.multiply."""
+    from ..nf import Slice
+    fw = repo.func('plane.Plane.fit_tilt')
+    _, wpaths, _ = analyse(repo, fw)
+    grows, replaced = [], False
+    for p in wpaths:
+        reset = False
+        for e in p.events:
+            if e.kind != 'write' or e.depth != 0:
+                continue
+            if e.data.get('how') == 'attrstore' and e.data.get('attr') == 'tilt':
+                reset = True
+                replaced = True
+            if e.data.get('how') in ('method:append', 'method:extend', 'method:insert') and not reset:
+                a = e.target.single_atom() if hasattr(e.target, 'single_atom') else None
+                if a is not None and a[0] == 'attr' and a[2] == 'tilt':
+                    grows.append(e)
+    fr = repo.func('plane.Plane.multiply')
+    _, rpaths, _ = analyse(repo, fr, types={('sym', 'wavefront'): repo.cls('wavefront.Wavefront')})
+    reads_all, reads, detail = True, 0, ''
+    tilt_atom = nf.attr(nf.sym('self'), 'tilt').single_atom()
+    for p in rpaths:
+        for e in p.events:
+            if e.kind == 'call' and e.data.get('new') == 'field.Field' and e.depth == 0:
+                t = e.bound.get('tilt')
+                if t is None or tilt_atom not in nf.value_atoms(t):
+                    continue
+                reads += 1
+                full = False
+                if isinstance(t, Poly) and t.single_atom() == tilt_atom:
+                    full = True
+                for a in nf.value_atoms(t):
+                    if a[0] == 'idx' and a[1] == tilt_atom and isinstance(a[2], Slice):
+                        full = True
+                if not full:
+                    reads_all = False
+                    detail = f'reader passes tilt={fmt(t)} (a single entry per segment)'
+    if reads == 0:
+        raise AnalysisError('Plane.multiply: no Field built from self.tilt found')
+    ok = reads_all or not grows
+    chk.ob(clause, 'D-cardinality', 'plane.Plane.tilt', 'writer fit_tilt vs reader multiply', ok,
+           (f'fit_tilt grows the list on every call ({len(grows)} growth site(s), e.g. {grows[0].loc()}) but '
+            + detail + ': tilt fitted after an OPD update is never applied') if not ok else
+           ('reader consumes every recorded entry of its segment' if reads_all else 'writer replaces the record'),
+           fr.loc())
